@@ -106,6 +106,33 @@ theorem com_scale (n : ℕ) (w : ℕ → K) (a : K) (ha : a ≠ 0) :
   · simp [h0]
   · field_simp
 
+/-! ### corollaries: symmetric image moved by a shift, empty margins, overall scale -/
+
+/-- **the centre-of-mass finder follows the shift of a symmetric image exactly**: a profile symmetric about `c/2`, moved by `t` whole
+    pixels inside a frame widened by `t`, has its centre of mass at `c/2 + t` -/
+theorem com_symmetric_shifted [CharZero K] (n c t : ℕ) (w : ℕ → K) (h : SymAbout n c w) (hne : sumRange n w ≠ 0) :
+    com1 (n + t) (fun i => if t ≤ i then w (i - t) else 0) = (c : K) / 2 + t := by
+  rw [com_translate n t w hne, com_symmetric n c w h hne]
+
+/-- **empty margins do not move the centre of mass**: widening the frame by `m` pixels that hold no intensity leaves it where it was -/
+theorem com_zero_padding (n m : ℕ) (w : ℕ → K) (hz : ∀ i, n ≤ i → w i = 0) : com1 (n + m) w = com1 n w := by
+  unfold com1
+  have pad : ∀ g : ℕ → K, (∀ i, n ≤ i → g i = 0) → sumRange (n + m) g = sumRange n g := by
+    intro g hg
+    rw [sumRange_split n m g,
+      sumRange_congr m _ (fun _ => (0 : K)) (fun i _ => hg (n + i) (Nat.le_add_right n i)), sumRange_zero, add_zero]
+  rw [pad w hz, pad (fun i => ((i : ℕ) : K) * w i) (fun i hi => by rw [hz i hi, mul_zero])]
+
+/-- the centre of mass of a symmetric profile does not depend on the frame it sits in, nor on its overall scale -/
+theorem com_symmetric_any_frame [CharZero K] (n c m : ℕ) (w : ℕ → K) (a : K) (ha : a ≠ 0) (h : SymAbout n c w)
+    (hne : sumRange n w ≠ 0) : com1 (n + m) (fun i => a * w i) = (c : K) / 2 := by
+  rw [com_scale (n + m) w a ha, com_zero_padding n m w (fun i hi => h.2.2 i (by have := h.1; omega)), com_symmetric n c w h hne]
+
+example : SymAbout 5 3 (fun i => if i ≤ 3 then (1 : ℚ) else 0) := by
+  refine ⟨by decide, ?_, ?_⟩
+  · intro i hi; simp [hi]
+  · intro i hi; simp; omega
+
 /-! ### autoconvolution: the symmetry centre is a maximum (over ℝ) -/
 
 /-- every autoconvolution value is bounded by the energy `Σ p²` … -/
